@@ -3,6 +3,7 @@
  * layout: any encoding that is injective, keeps zero unique, stays out of the
  * node-handle range and round-trips would satisfy them. */
 
+long w_v; int w_h; /* witnesses for native replay */
 #define T_MIN (-1073741824L)
 #define T_MAX ( 1073741823L)
 
@@ -10,6 +11,7 @@
 node_handle terminal__getIntegerHandle(const struct terminal *self)
 __CPROVER_requires(__CPROVER_is_fresh(self, sizeof(*self)))
 __CPROVER_requires(self->mytype == terminal_type__INTEGER)     /* MEDDLY_DCASSERT(isInteger()) */
+WITNESS(terminal__getIntegerHandle, self->t_integer == w_v)
 __CPROVER_requires(verif_exc == 0)
 __CPROVER_assigns(verif_exc)
 ENSURES(overflow_rejected, (verif_exc != 0) == (self->t_integer < T_MIN || self->t_integer > T_MAX))
